@@ -721,11 +721,7 @@ func checkC10(p *Program, r *Report) {
 	c10PendingCapacity(p, r)
 	c09IncomingRelease(p, r)
 	// under v5 several responses can share one self-contained segment: each must be delivered
-	if m := p.TryMethod("client", "CqlClientConnection", "readSelfContainedSegment"); m != nil {
-		segmentDrain(r, "segment-drain", p.SSA().FuncValue(m))
-	} else {
-		fatalf("anchor: CqlClientConnection.readSelfContainedSegment not found")
-	}
+	segmentDrainFor(p, r, "segment-drain", "CqlClientConnection")
 }
 
 // c10LockPairing: on every path of every function of package client, each mutex acquired is
